@@ -219,6 +219,8 @@ def run(tier, seed):
         for key, cs in mods.items():
             src, cm = L.render_module(cs)
             for config, cflags in configs:
+                if config != "default" and "_w" in key:
+                    continue        # the typed numeric layer is built in the default configuration only
                 name = "c32_" + key + ("" if config == "default" else "_o2")
                 fut = ex.submit(pipeline, name, src, cs, cm, {"legacy_implicit_noexcept": True} if key.endswith("_lg") else {}, {},
                                 cflags, config == "default")
